@@ -326,7 +326,7 @@ def gen_efuns(rng, tier, i):
                                't = %s; t += %s;', 't = %s; t -= %s;', 't = %s; t &= %s;', 't = %s; t |= %s;', 't = %s; t *= %s;', 't = %s; t /= %s;',
                                't = %s; t[0..1] = %s;', 't = %s; t[1..<1] = %s;', 't = %s; t[<2..] = %s;', 't = %s; t[0] = %s;', 't = %s; t[<1] = %s;',
                                't = %s; t["k"] = %s;', 't = %s; t[0..0] = %s;', 'r = bind(%s, %s);', 't = %s; r = bind(t, load_object("/mk")); r = %s;', 't = %s; r = evaluate(bind(t, load_object("/mk")), %s);', 'r = -%s + !%s;', 'r = %s ? %s : 0;', 'r = %s && %s;',
-                               't = %s; t[0][0] = %s;', 't = %s; t->a = %s;', 'r = sizeof(%s - %s);', 't = %s; t++; t = %s; t--;'))
+                               't = %s; t[0][0] = %s;', 't = %s; t->a = %s;', 'mkck(%s)->a = %s;', 'mkck(%s)->a += %s;', 'r = mkck(%s)->a; r = %s;', 'r = sizeof(%s - %s);', 't = %s; t++; t = %s; t--;'))
             if 'bind(t' in form:
                 funs = [k for k in range(nv) if tclass(gval[k]) == 'fun']
                 A = 'g%d' % rng.choice(funs) if funs and rng.random() < 0.6 else '((mixed)%s)' % rng.choice(by_class['fun'])
@@ -340,6 +340,7 @@ def gen_efuns(rng, tier, i):
         args = ', '.join('g%d' % rng.randrange(nv) for _ in range(cnt))
         calls.append('  catch(r = %s(%s));' % (n, args)); picked.append(n)
     src = ('inherit "/script";\nmixed ' + ', '.join('g%d' % k for k in range(nv)) + ';\nvoid create() { seteuid(getuid()); }\n'
+           'class CK mkck(mixed v) { class CK c; c = new(class CK); c->a = v; return c; }\n'      # an instance nobody else holds
            'void setup() {\n' + '\n'.join(setup) + '\n}\n'
            'void run_efuns() {\n  mixed r, t;\n' + '\n'.join(calls) + '\n}\n'
            'void clearg() { ' + ' '.join('g%d = 0;' % k for k in range(nv)) + ' }\n')
